@@ -1191,7 +1191,10 @@ fn operand_values(c: &Case) -> Vec<Value> {
                 }
                 v.push(json!({"k": "mem", "bits": c.mem_w * 8, "v": val, "addr": c.mem_target}));
             }
-            _ => v.push(json!({"k": "imm", "bits": 0, "v": c.instr.immediate(k)})),
+            OpKind::NearBranch64 | OpKind::NearBranch32 | OpKind::NearBranch16 => v.push(json!({"k": "br", "bits": 0, "v": c.instr.near_branch_target()})),
+            OpKind::Immediate8 | OpKind::Immediate16 | OpKind::Immediate32 | OpKind::Immediate64 | OpKind::Immediate8to16 | OpKind::Immediate8to32
+            | OpKind::Immediate8to64 | OpKind::Immediate32to64 | OpKind::Immediate8_2nd => v.push(json!({"k": "imm", "bits": 0, "v": c.instr.immediate(k)})),
+            _ => v.push(json!({"k": "other", "bits": 0, "v": 0})),
         }
     }
     v
@@ -1240,7 +1243,10 @@ pub fn gen_family(g: &mut Gen, family: &str, per_form: usize, forms: &std::colle
         if !want {
             continue;
         }
-        for n in 0..per_form {
+        // alignment-checked 128-bit forms get four times the cases in the fault family (placement x segment base x alignment)
+        let wide_form = (0..code.op_code().op_count()).any(|i| code.op_code().op_kind(i) == K::xmm_or_mem);
+        let reps = if family == "fault" && wide_form { per_form * 4 } else { per_form };
+        for n in 0..reps {
             // the fault family walks through class-specific extreme operands first (see memory_special)
             g.iter_hint = if family == "fault" { n / 2 } else { usize::MAX };
             let pad = g.rng.gen_range(0..4usize);
@@ -1271,7 +1277,9 @@ pub fn gen_family(g: &mut Gen, family: &str, per_form: usize, forms: &std::colle
                     let use_mem = has_mem && (!has_reg || n % 2 == 1);
                     let shape = MEM_SHAPES[g.rng.gen_range(0..MEM_SHAPES.len())];
                     let seg = if g.rng.gen_bool(0.06) { Register::GS } else if g.rng.gen_bool(0.03) { Register::FS } else { Register::None };
-                    if let Some(c) = g.make(code, family, use_mem, shape, Place::Rw, false, seg, pad) {
+                    // the 0x67 address-size prefix also outside the EA family (index-only and absolute forms wrap at 4 GiB)
+                    let asz32 = family == "data" && use_mem && seg == Register::None && g.rng.gen_bool(0.08);
+                    if let Some(c) = g.make(code, family, use_mem, shape, Place::Rw, asz32, seg, pad) {
                         out.push(c);
                     }
                 }
